@@ -41,6 +41,7 @@ fn plan(prop: &str, o: &mut Out) {
         }
         "C04" => {
             g_maxlen_fmt(o, &all);
+            g_long_valid(o, &all);
             g_grid(o, &all);
             g_exp_limits(o);
             let c = o.q(3000, 100000);
@@ -91,6 +92,7 @@ fn plan(prop: &str, o: &mut Out) {
             g_mutations(o, &all);
             g_targeted_invalid(o);
             g_nonascii_chars(o, &["b32", "dyn", "big"]);
+            g_long_valid(o, &all);
         }
         "C07" => {
             g_grid(o, &["dyn", "big"]);
@@ -183,6 +185,7 @@ fn plan(prop: &str, o: &mut Out) {
             g_strings(o, "b32", 3, true);
             g_mutations(o, &["b64", "big"]);
             g_targeted_invalid(o);
+            g_long_valid(o, &["b32", "b64", "b128", "dyn"]);
             g_specials(o);
             g_bytes(o);
             let c = o.q(2000, 50000);
